@@ -16,7 +16,8 @@ def run(tier, seed):
                           dict(base, MaxDepth=7), nsetup=6, walk_len=13,
                           nwalks=300 if quick else 3000, seed=seed, clauses=CLAUSES,
                           props=["PropC04"],
-                          extra_B=[{"Scenario": '"c04b"', "MaxDepth": 3 if quick else 4}])
+                          extra_B=[{"Scenario": '"c04b"', "MaxDepth": 3 if quick else 4},
+                                   {"Scenario": '"c04c"', "MaxDepth": 3 if quick else 4}])
 
 
 def replay(path):
